@@ -22,7 +22,8 @@ from .models import (ARITH, CMP, DType, PyCallable, UNIT_SECONDS, _where, as_ope
                      el_num, num_of_el, interp_owner)
 from .models_py import DefaultDict, LOGGER, Logger, ParamVal, PartialVal, PathVal, SigVal, StringIOVal
 from .repo import AnalysisError
-from .vec import MASKED, NONE_EL, OOB, Backing, El, Masked, Sc, Vec, Vec2, norm_index
+from .vec import (MASKED, NONE_EL, OOB, Backing, El, Masked, Sc, Vec, Vec2, m_and, m_conc, m_formula, m_ite, m_or,
+                  norm_index)
 
 
 def register(M):
@@ -57,7 +58,7 @@ def filled_for_series(v):
         fill = getattr(v, '_fill', None)
         out = []
         for e in v.els():
-            if e.m:
+            if m_conc(e.m, None, 'pandas operation on a masked array'):
                 if v.dtype == 'b1':
                     d = X.TRUE if fill is None else (X.TRUE if fill else X.FALSE)
                 else:
@@ -103,10 +104,13 @@ def none_check(interp, e, node):
 def arith_el(op, ea, eb, ma_style):
     """ma_style: numpy.ma operator semantics (data under mask = left operand's data)"""
     f = ARITH[op]
-    m = ea.m or eb.m
-    if m and ma_style:
+    m = m_or(ea.m, eb.m)
+    if m is True and ma_style:
         return El(num_of_el(ea.d), True)
-    return El(f(num_of_el(ea.d), num_of_el(eb.d)), m)
+    val = f(num_of_el(ea.d), num_of_el(eb.d))
+    if m is not False and ma_style:
+        val = X.ite(m_formula(m), num_of_el(ea.d), val)
+    return El(val, m)
 
 
 def binop_model(M, interp, op, a, b, node):
@@ -145,7 +149,7 @@ def binop_model(M, interp, op, a, b, node):
     dt, unit = arith_dtype(op, a, b, node)
     if tmpl is None:
         e = out[0]
-        if e.m:
+        if m_conc(e.m, node, 'scalar result'):
             return MASKED
         return Sc(e.d, dt, unit)
     return Vec.fresh(out, kind=('nd' if kind in ('nd',) else kind), dtype=dt, unit=unit,
@@ -254,10 +258,10 @@ def logic_model(M, interp, op, a, b, node):
     f = {'BitAnd': X.f_and, 'BitOr': X.f_or, 'BitXor': X.f_xor}[op]
     out = []
     for ea, eb in pairs:
-        out.append(El(f(bool_of_el(ea.d), bool_of_el(eb.d)), ea.m or eb.m))
+        out.append(El(f(bool_of_el(ea.d), bool_of_el(eb.d)), m_or(ea.m, eb.m)))
     if tmpl is None:
         e = out[0]
-        if e.m:
+        if m_conc(e.m, node, 'scalar result'):
             return MASKED
         return mkbool(e.d)
     return Vec.fresh(out, kind=kind, dtype='b1', index=tmpl.index if kind == 'series' else None)
@@ -289,9 +293,10 @@ def unaryop_model(M, interp, op, v, node):
 
 def cmp_el(op, ea, eb, masked_style):
     da, db = ea.d, eb.d
-    m = ea.m or eb.m
-    if masked_style and m and op in ('eq', 'ne'):
-        both = ea.m and eb.m
+    m = m_or(ea.m, eb.m)
+    if masked_style and m is not False and op in ('eq', 'ne'):
+        m_conc(m, None, '== / != on masked arrays')
+        both = m_conc(ea.m) and m_conc(eb.m)
         # numpy.ma: where masked, the comparison of the masks decides
         val = (both if op == 'eq' else not both)
         return El(X.TRUE if val else X.FALSE, True)
@@ -332,7 +337,7 @@ def compare_model(M, interp, op, a, b, node):
     out = [cmp_el(c, ea, eb, kind == 'ma') for ea, eb in pairs]
     if tmpl is None:
         e = out[0]
-        if e.m:
+        if m_conc(e.m, node, 'scalar result'):
             return MASKED
         return mkbool(e.d)
     return Vec.fresh(out, kind=kind, dtype='b1', index=tmpl.index if kind == 'series' else None)
@@ -453,7 +458,7 @@ def contains_model(M, interp, container, item, node):
     if h is not None:
         return h(item)
     if isinstance(container, Vec):
-        fs = [X.cmp('eq', num_of_el(e.d), as_operand(item)[1]) for e in container.els() if not e.m]
+        fs = [X.cmp('eq', num_of_el(e.d), as_operand(item)[1]) for e in container.els() if not m_conc(e.m, node, "'in'")]
         return mkbool(X.f_or(*fs)) if fs else False
     raise AnalysisError(f"'in' on {type(container).__name__} not modelled", node, where=_where(interp, node))
 
@@ -503,7 +508,7 @@ def iterate_model(M, interp, v, node):
     if isinstance(v, Vec):
         out = []
         for e in v.els():
-            out.append(MASKED if e.m else scalar_of(e, v))
+            out.append(MASKED if m_conc(e.m, node, 'iteration') else scalar_of(e, v))
         return out
     if isinstance(v, Vec2):
         return list(v.rows)
@@ -530,7 +535,7 @@ def scalar_of(e, v):
 
 def ite_model(M, interp, f, a, b, node):
     if isinstance(a, Vec) and isinstance(b, Vec) and len(a) == len(b):
-        out = [El(X.ite(f, ea.d, eb.d), ea.m if ea.m == eb.m else _mask_conflict(node)) for ea, eb in zip(a.els(), b.els())]
+        out = [El(X.ite(f, ea.d, eb.d), m_ite(f, ea.m, eb.m)) for ea, eb in zip(a.els(), b.els())]
         return a.like(out)
     oa, ob = as_operand(a), as_operand(b)
     if oa and ob and oa[0] == 'sc' and ob[0] == 'sc' and not oa[2] and not ob[2]:
@@ -675,7 +680,7 @@ def vec_getitem(M, interp, v, key, node):
         raise AbsRaise(ExcVal('IndexError', (f'index {i} is out of bounds for axis 0 with size {n}',)), node)
     e = v.el(p)
     check_oob(interp, [e], node)
-    if e.m:
+    if m_conc(e.m, node, 'scalar element access'):
         return MASKED
     return scalar_of(e, v)
 
@@ -790,10 +795,8 @@ def vec_store(M, interp, t, key, v, node):
         elif g == X.FALSE:
             return
         else:
-            if old.m != e.m:
-                raise AnalysisError('conditional store would change the mask under an undecided condition', node,
-                                    where=_where(interp, node))
-            t.set(pos, El(X.ite(g, e.d, old.d), old.m))
+            # a store of an unmasked value unmasks the cell (numpy.ma soft mask): the mask becomes data dependent
+            t.set(pos, El(X.ite(g, e.d, old.d), m_ite(g, e.m, old.m)))
 
     if isinstance(key, tuple) and len(key) == 1:
         key = key[0]
